@@ -66,25 +66,65 @@ func H_C08_multidim() {
 
 // H_C08_depth3: arrays of arrays of arrays.
 func H_C08_depth3() {
-	x, y := verif.F64("x"), verif.F64("y")
-	verif.Assume(verif.All(x == x, y == y))
+	shape := verif.Choose("shape", 4)
+	mix := verif.Choose("mix", 2)
+	x, y, z := verif.F64("x"), verif.F64("y"), verif.F64("z")
+	verif.Assume(verif.All(x == x, y == y, z == z))
 	c := verif.F64("c")
-	doc := Map{"n": []any{[]any{[]any{Map{"a": x}}, []any{}}, []any{[]any{Map{"a": y}, Map{"a": x}}}}}
-	got, ok := runQuery(doc, verif.SQL("SELECT a FROM n WHERE a > ?", c))
+	r := func(v float64) any { return Map{"a": v} }
+	var n []any
+	switch shape {
+	case 0:
+		n = []any{[]any{[]any{r(x)}, []any{}}, []any{[]any{r(y), r(x)}}}
+	case 1:
+		// an empty array first, deeper arrays after it
+		n = []any{[]any{}, []any{[]any{r(x), r(y)}, []any{}, []any{r(z)}}, []any{[]any{r(x)}}}
+	case 2:
+		// mixed depths: a flat array of rows first, arrays of arrays after it
+		n = []any{[]any{r(x)}, []any{[]any{r(y)}, []any{r(z)}}}
+	case 3:
+		n = []any{[]any{[]any{}, []any{r(x)}}, []any{}, []any{[]any{r(y)}, []any{r(z), r(x)}}}
+	}
+	from := "n"
+	if mix == 1 {
+		from = "`mix=>n`"
+	}
+	got, ok := runQuery(Map{"n": n}, verif.SQL("SELECT a FROM "+from+" WHERE a > ?", c))
 	if !ok {
 		return
 	}
-	keep := func(vs ...float64) []any {
+	// reference: the same nesting with every leaf array filtered; mix=> is the
+	// concatenation of the filtered leaves
+	var flat []any
+	var walk func(v []any) []any
+	walk = func(v []any) []any {
 		out := []any{}
-		for _, v := range vs {
-			if v > c {
-				out = append(out, Map{"a": v})
+		leaf := true
+		for _, e := range v {
+			if _, isArr := e.([]any); isArr {
+				leaf = false
 			}
+		}
+		if leaf {
+			for _, e := range v {
+				if a := f64of(e.(Map)["a"]); a > c {
+					out = append(out, Map{"a": a})
+					flat = append(flat, Map{"a": a})
+				}
+			}
+			return out
+		}
+		for _, e := range v {
+			out = append(out, walk(e.([]any)))
 		}
 		return out
 	}
-	want := []any{[]any{keep(x), keep()}, []any{keep(y, x)}}
-	verif.Assert(verif.Eq(got, want), "per-inner-array")
+	nested := walk(n)
+	if mix == 1 {
+		verif.Assert(verif.Eq(got, flat), "mix-is-concatenation-of-inner-results")
+	} else {
+		verif.Assert(verif.Eq(got, nested), "per-inner-array")
+	}
 	verif.Reach("end")
 }
 
